@@ -181,6 +181,13 @@ impl PoolImpl {
     async fn add_valid_cert(&mut self, cert: Cert) {
         let slot = cert.slot();
 
+        // one vote can complete several certificates at once, and an earlier one of them
+        // may have decided (and pruned) this slot already: nothing is tracked for it anymore
+        if slot < self.first_unpruned_slot() {
+            self.send_votor_event(PoolEvent::CertCreated(cert)).await;
+            return;
+        }
+
         // actually add certificate
         trace!("adding cert to pool: {cert:?}");
         self.slot_state(slot).add_cert(cert.clone());
